@@ -7,7 +7,7 @@ MANIFEST.json.
 
 PROPS = {}
 NOT_APPLICABLE = {}
-HOOK_COMMITS = ["c94b8c9"]
+HOOK_COMMITS = ["c94b8c9", "c3c8497", "5a76809", "8c6f5e6", "6f05708"]
 
 
 def prop(pid, **kw):
@@ -358,3 +358,31 @@ prop("C16",
                 "(WaitForClose returned), before that only stream-correctness of returned bytes. Interleavings are widened, not enumerated.",
      technique="runtime monitoring of concurrent shutdown programs with hook-based schedule perturbation, virtual-time termination bounds, goroutine-leak scan; race detector",
      assumptions=["go1.26 testing/synctest virtual time"])
+
+prop("C17",
+     level="exploration",
+     parts=[{"engine": "conc", "race": True, "max_cases_per_child": 12}],
+     race_violation_scope=True,
+     floor={"quick": 500, "thorough": 10000},
+     child_timeout={"quick": 1500, "thorough": 3400},
+     rule="(a) common.DeadlineChan histories in real time: capacity 0-3, 2-6 goroutines, 5-40 operations from {Send(unique value), "
+          "Recv, Close, Cancel, SetDeadline(past/+1..20 ms/zero)}, seeded perturbation at the verif Yield points inside Recv/Send/"
+          "Close/Cancel/SetDeadline; every call is recorded at the client boundary with logical call/return stamps; calls still "
+          "blocked after the harness's final Close are hangs (two-dump rule); each complete history is checked for linearizability "
+          "with porcupine against a sequential (items, closed) model (Send ok appends while open; Send/Recv EOF need closed, Recv EOF "
+          "also empty; Recv v needs v at the head; time-outs are no-ops; first Close nil, later EOF), plus at-most-once with unique "
+          "values. (b) bubbles: 2-5 goroutines on one transport.Client (Handshake, ReadMsg with a single reader, Write, WriteMsg, "
+          "SetDeadline/SetReadDeadline past/+d/zero, Close at random points), the server-side Handle (reader, writer, Close) and the "
+          "Server (AcceptTimeout, Close twice) against a live, a silent and a black-hole peer in both handshake modes with HSTimeout "
+          "set: every call returns once both sides are closed, read errors are only EOF / deadline / overflow, all Close callers get "
+          "the same result. (c) silent peer: three concurrent Handshake callers must all get the same error wrapping "
+          "os.ErrDeadlineExceeded within 3 x HSTimeout + 20 virtual s, in both modes; data queued before Close is returned before EOF "
+          "(Client and Handle). Race detector: a report whose racing access is in transport/ or common/ is a violation. Non-trivial = "
+          "a queue history with at least one concurrent pair of operations, or a transport program, distinct by interleaving signature.",
+     level_text="Exploration of small concurrent programs with hook-based schedule perturbation; linearizability checking of "
+                "recorded queue histories (porcupine); termination, error-kind and idempotence monitors; race detector scoped to "
+                "transport/ and common/.",
+     level_note="Queue capacity is not modelled (an unbounded model only accepts more). SetWriteDeadline is documented as a no-op "
+                "and not judged. Programs that share one connection between several readers are not generated in bubbles.",
+     technique="race detector + linearizability checking of recorded histories (porcupine) + termination monitors under schedule perturbation",
+     assumptions=["porcupine v1.3.0", "go1.26 testing/synctest virtual time for the transport programs"])
